@@ -472,6 +472,26 @@ func c09psProof(e common.Env, p *common.Part, n, t, L int, rng *mrand.Rand) {
 		try(fmt.Sprintf("psi.X[%d]", i), "from another proof", func(r *ps.RawSigPok, psi *ps.RawPoKofSignaturePoCorrectForm) { psi.X[i] = psiB.X[i%len(psiB.X)] })
 	}
 	try("psi", "from another proof", func(r *ps.RawSigPok, psi *ps.RawPoKofSignaturePoCorrectForm) { *psi = psiB })
+	// coordinated alterations: the signature part re-randomised (h^eps, h'^eps and nu doubled together), and h^eps / h'^eps swapped
+	dbl := func(b []byte) []byte {
+		p, err := curve.NewG1FromBytes(b)
+		if err != nil {
+			return flipByte(b, -1)
+		}
+		return p.Mul(curve.NewZrFromInt(2)).Bytes()
+	}
+	try("h^eps,h'^eps,nu", "all three doubled (re-randomised signature, same psi)", func(r *ps.RawSigPok, psi *ps.RawPoKofSignaturePoCorrectForm) {
+		r.Data[1], r.Data[2], r.Data[3] = dbl(r.Data[1]), dbl(r.Data[2]), dbl(r.Data[3])
+	})
+	try("h^eps,h'^eps", "both doubled", func(r *ps.RawSigPok, psi *ps.RawPoKofSignaturePoCorrectForm) {
+		r.Data[1], r.Data[2] = dbl(r.Data[1]), dbl(r.Data[2])
+	})
+	try("h^eps<->h'^eps", "swapped", func(r *ps.RawSigPok, psi *ps.RawPoKofSignaturePoCorrectForm) {
+		r.Data[1], r.Data[2] = r.Data[2], r.Data[1]
+	})
+	try("nu,kappa", "nu from another proof together with its kappa", func(r *ps.RawSigPok, psi *ps.RawPoKofSignaturePoCorrectForm) {
+		r.Data[3], r.Data[4] = rb.Data[3], rb.Data[4]
+	})
 	// witness of signer i used under index j (expected verdict from the independent coefficient reference)
 	if t >= 2 {
 		pts := make([]int64, t)
